@@ -305,6 +305,8 @@ func (t *recTimer) current() string {
 type stratCall struct {
 	kind string
 	ans  chan string
+	h    uint64 // the round the call was made for
+	r    uint32
 }
 
 type recStrategy struct {
@@ -331,6 +333,7 @@ func (s *recStrategy) wait(ctx context.Context, kind string, arg any) (string, e
 	s.mu.Lock()
 	s.pending = c
 	h, r := s.curH, s.curR
+	c.h, c.r = h, r
 	s.mu.Unlock()
 	s.rec.add(M{"t": "strategy", "kind": kind, "h": h, "r": r, "arg": arg})
 	select {
@@ -1047,7 +1050,12 @@ func (rn *smRunner) run(b smBehaviour) {
 				}
 			}
 			if rn.me == 0 && a.Ans != "NotReady" {
-				expectEvent = true // non-participating: the result is still consumed (no signature)
+				// non-participating: the result is still consumed (no signature) -- unless the call was made for a round that
+				// has been left since (a late answer goes to that round's channel and is never read)
+				r.evMu.Lock()
+				lk := r.last
+				r.evMu.Unlock()
+				expectEvent = p.h == lk.H && p.r == lk.R
 			}
 			hub.mu.Lock()
 			hub.plan, hub.extra = resps, 0
